@@ -1,4 +1,4 @@
-//@@ unit props=C19,C01,C10,C16,C17,C06
+//@@ unit props=C19,C01,C10,C16,C17,C06,C11
 // Unit xlsxxml: the XML-event-consuming functions of the xlsx reader (src/xlsx/mod.rs, src/xlsx/cells_reader.rs), verbatim text,
 // under contract against a GHOST MODEL of quick-xml (assumption A-xml of DESIGN.md section 5).
 //   read_string (C19: plain / rich runs / phonetic ignored / reader left after the closing tag), Xlsx::read_shared_strings (C19: item i
@@ -1218,10 +1218,10 @@ pub open spec fn atoi_usize(s: Seq<u8>) -> Option<usize> { atoi_simd::atoi_spec:
 pub closed spec fn edt_parts(e: ExcelDateTime) -> (f64, ExcelDateTimeType, bool) { (e.value, e.datetime_type, e.is_1904) }
 pub closed spec fn edt_mk(value: f64, datetime_type: ExcelDateTimeType, is_1904: bool) -> ExcelDateTime { ExcelDateTime { value, datetime_type, is_1904 } }
 //@@ impl src/datatype.rs ExcelDateTime
-//@@ fn src/datatype.rs ExcelDateTime::new props=C10,C16 ret=r
+//@@ fn src/datatype.rs ExcelDateTime::new props=C10,C16,C11 ret=r
 //@@ sig
     ensures
-        //# C10,C16.edt_new_fields
+        //# C10,C16,C11.edt_new_fields
         r == edt_mk(value, datetime_type, is_1904),
 //@@ end
 //@@ endimpl
@@ -1234,12 +1234,12 @@ pub open spec fn flavour(format: Option<&CellFormat>) -> Option<ExcelDateTimeTyp
     }
 }
 // same contract as in unit formats, re-verified here on the same text
-//@@ fn src/formats.rs format_excel_f64_ref props=C10,C01,C16 ret=r
+//@@ fn src/formats.rs format_excel_f64_ref props=C10,C01,C16,C11 ret=r
 //@@ sig
     ensures
         //# C10,C01.f64_plain_when_not_date_format
         flavour(format) is None ==> r == DataRef::<'static>::Float(value),
-        //# C10,C16.f64_datetime_iff_date_format
+        //# C10,C16,C11.f64_datetime_iff_date_format
         flavour(format) matches Some(ty) ==> r == DataRef::<'static>::DateTime(edt_mk(value, ty, is_1904)),
 //@@ end
 
@@ -1303,7 +1303,7 @@ pub open spec fn typed_dv(c_attrs: Seq<Attr>, v: Seq<char>, strings: Seq<String>
     }
 }
 
-//@@ fn src/xlsx/cells_reader.rs read_v props=C01,C10,C16,C19 entry ret=r
+//@@ fn src/xlsx/cells_reader.rs read_v props=C01,C10,C16,C19,C11 entry ret=r
 //@@ replace /Some\(b"s"\) =>/ Verus crashes on byte-string literal patterns (ill-typed AIR); equivalent guard
 Some(__t) if __t == b"s" =>
 //@@ replace /Some\(b"b"\) =>/ byte-string literal pattern -> equivalent guard
@@ -1337,15 +1337,15 @@ map_err(|e| XlsxError::ParseFloat(e))
         t_is(c_element.ev().attrs, n_d()) ==> r == Ok::<DataRef<'s>, XlsxError>(DataRef::DateTimeIso(v)),
         //# C01,C19.value_typing_formula_string
         t_is(c_element.ev().attrs, n_str()) ==> r == Ok::<DataRef<'s>, XlsxError>(DataRef::String(v)),
-        //# C01,C10,C16.value_typing_number
+        //# C01,C10,C16,C11.value_typing_number
         t_is(c_element.ev().attrs, n_n()) && v@.len() > 0 && parse_spec::<f64>(v@) is Ok && style_valid(c_element.ev().attrs, formats@) ==>
             r == Ok::<DataRef<'s>, XlsxError>(num_value(parse_spec::<f64>(v@)->Ok_0, style_fmt(c_element.ev().attrs, formats@), is_1904)),
-        //# C01,C10,C16.value_typing_default_is_number
+        //# C01,C10,C16,C11.value_typing_default_is_number
         attr_scan(c_element.ev().attrs, n_t()) is Absent && parse_spec::<f64>(v@) is Ok && style_valid(c_element.ev().attrs, formats@) ==>
             r == Ok::<DataRef<'s>, XlsxError>(num_value(parse_spec::<f64>(v@)->Ok_0, style_fmt(c_element.ev().attrs, formats@), is_1904)),
         //# C01.value_typing_empty_number
         t_is(c_element.ev().attrs, n_n()) && v@.len() == 0 ==> r == Ok::<DataRef<'s>, XlsxError>(DataRef::Empty),
-        //# C01,C10,C16,C19.value_typing
+        //# C01,C10,C16,C19,C11.value_typing
         typed_dv(c_element.ev().attrs, v@, strings@, formats@, is_1904) is Some ==>
             r is Ok && dv(r->Ok_0) == typed_dv(c_element.ev().attrs, v@, strings@, formats@, is_1904)->Some_0,
 //@@ body
@@ -1649,7 +1649,7 @@ proof fn witness_next_scan(cx: ShCtx)
 }
 
 //@@ impl src/xlsx/cells_reader.rs XlsxCellReader
-//@@ fn src/xlsx/cells_reader.rs XlsxCellReader::next_cell props=C01,C10,C16,C19 entry ret=r
+//@@ fn src/xlsx/cells_reader.rs XlsxCellReader::next_cell props=C01,C10,C16,C19,C11 entry ret=r
 //@@ sig
     ensures
         //# C01.cells_reader_frame
@@ -1659,7 +1659,7 @@ proof fn witness_next_scan(cx: ShCtx)
            let nx = next_scan(ev, old(self).g_pos() as int, old(self).g_cur(), old(self).g_cx());
            nx.ok && nx.cell is Some ==>
                (r matches Ok(Some(c)) && c.p().0 == nx.cell->Some_0.0.0 && c.p().1 == nx.cell->Some_0.0.1) }),
-        //# C01,C10,C16,C19.cell_value
+        //# C01,C10,C16,C19,C11.cell_value
         ({ let ev = old(self).g_events();
            let nx = next_scan(ev, old(self).g_pos() as int, old(self).g_cur(), old(self).g_cx());
            nx.ok && nx.cell is Some ==>
